@@ -82,9 +82,10 @@ class Gen:
         if self.r.random() > p:
             return {}
         d = {}
+        vals = [0, 1, 2, 3, 0.5] if self.cfg.get("numeric_attrs") else ATTR_VALS
         for _ in range(self.r.randint(1, 2)):
             k = self.r.choice(ATTR_KEYS)
-            d[k] = self.r.choice(ATTR_VALS)
+            d[k] = self.r.choice(vals)
         if nested and self.r.random() < 0.5:
             d["tags"] = [self.r.randint(0, 3)]
             if self.r.random() < 0.4:
@@ -181,6 +182,7 @@ class Gen:
 
     def _attr_values(self, m, table_ids, pick):
         mode = self.r.randrange(4)
+        ATTR_VALS = [0, 1, 2, 3, 0.5] if self.cfg.get("numeric_attrs") else globals()["ATTR_VALS"]
         if mode == 0:  # name + dict
             vals = {pick(): self.r.choice(ATTR_VALS) for _ in range(self.r.randint(1, 3))}
             return vals, self.r.choice(ATTR_KEYS)
